@@ -67,6 +67,47 @@ def o_area(fd, nrows, ncols, outlet, inlets):
     return res, cyc
 
 
+def o_pathlen(fd, nrows, ncols, x, outlet):
+    """Length of the downstream chain from x to the outlet (None when x does not drain to it)."""
+    n = nrows * ncols
+    want, c, steps = 0.0, x, 0
+    while c != outlet and steps <= n:
+        d = o_down(fd, nrows, ncols, c)
+        if d < 0:
+            return None
+        dr, dc = d // ncols - c // ncols, d % ncols - c % ncols
+        want += math.sqrt(2) if dr != 0 and dc != 0 else 1.0
+        c = d
+        steps += 1
+    return want if c == outlet else None
+
+
+def o_up_ok(row, fd, nrows, ncols, c):
+    """row = the 9 slots reported by upstream(c): the cells draining to c, each once, packed, then -1."""
+    wantup = sorted(x for x in range(nrows * ncols) if o_down(fd, nrows, ncols, x) == c)
+    gotup = [v for v in row if v >= 0]
+    return (sorted(gotup) == wantup and len(set(gotup)) == len(gotup)
+            and list(row[len(gotup):]) == [-1] * (9 - len(gotup))), wantup
+
+
+def o_river_ok(fd, nrows, ncols, start, nval, rows):
+    """rows = (cell, dist, ...): cells follow the downstream chain, distances advance by 1 / sqrt(2)."""
+    c, dist = start, 0.0
+    okr = True
+    for j, r in enumerate(rows):
+        if r[0] != c or abs(r[1] - dist) > 1e-9 * max(1, dist):
+            okr = False
+            break
+        d = o_down(fd, nrows, ncols, c)
+        if d < 0:
+            okr = okr and j == len(rows) - 1
+            break
+        dr, dc = d // ncols - c // ncols, d % ncols - c % ncols
+        dist += math.sqrt(2) if dr != 0 and dc != 0 else 1.0
+        c = d
+    return okr and 1 <= len(rows) <= nval
+
+
 def make_catchment(nrows, ncols, fd):
     from hydrodiy.gis.grid import Grid, Catchment
     g = Grid("fd", ncols, nrows, dtype=np.int64)
@@ -96,14 +137,89 @@ def rand_acyclic(rng, nrows, ncols):
     return fd
 
 
+def rand_grid(rng, nrows, ncols, p_acyclic=0.7):
+    if rng.random() < p_acyclic:
+        return rand_acyclic(rng, nrows, ncols)
+    return [rng.choice(VALUES if rng.random() < 0.3 else CODES) for _ in range(nrows * ncols)]
+
+
+def good_outlets(rng, fd, nrows, ncols, k=4):
+    """A few outlets, the cells with the largest upstream sets first."""
+    n = nrows * ncols
+    acc = sorted(range(n), key=lambda c: -len(o_area(fd, nrows, ncols, c, [])[0]))
+    return list(dict.fromkeys(acc[:2] + rng.sample(range(n), min(n, 3))))[:k]
+
+
+def gen_session(rng, S):
+    """Several Catchment objects, on one or several flow-direction grids, alive at the same time and taken
+    through an interleaved sequence of the property's operations.  Slots name the objects:
+      new s g | area s outlet inlets nval (nval None = the default buffer size) | paths s |
+      down s cells | up s cells | river g start nval | clone d a | touch s what
+    Buffer sizes come from a small pool shared by the whole session and the grids often have the same
+    shape, so that successive calls - on the same or on another object / grid - repeat the same sizes,
+    outlets and inlets (whatever is kept between calls by the module, the class or the extension is hit
+    again with equal keys and different contents)."""
+    ng = rng.choice([1, 2, 2, 3])
+    dim = lambda: rng.choice([1, 2, 2, 3, rng.randint(1, S)])
+    shape0 = (dim(), dim())
+    same = rng.random() < 0.6
+    grids = []
+    for k in range(ng):
+        nrows, ncols = shape0 if (same or k == 0) else (dim(), dim())
+        grids.append([nrows, ncols, rand_grid(rng, nrows, ncols, 0.8)])
+    ncell = [g[0] * g[1] for g in grids]
+    N = max(ncell)
+    pool = [N + 2, N + 2, rng.choice([N + 2, N + 5, 2 * N + 3, None])]
+    outs = [good_outlets(rng, g[2], g[0], g[1]) for g in grids]
+    nslots = rng.randint(2, 5)
+    sgrid = {}
+    ops = []
+    for s in range(nslots):
+        sgrid[s] = rng.randrange(ng)
+        ops.append(["new", s, sgrid[s]])
+    for _ in range(rng.randint(6, 14)):
+        r = rng.random()
+        s = rng.randrange(nslots)
+        gi = sgrid[s]
+        n = ncell[gi]
+        if r < 0.55:
+            inlets = None if rng.random() < 0.6 else sorted(rng.sample(range(n), min(n, rng.randint(1, 3))))
+            nval = rng.choice(pool) if rng.random() < 0.9 else rng.choice([1, 2, 3])
+            ops.append(["area", s, rng.choice(outs[gi]), inlets, nval])
+        elif r < 0.67:
+            ops.append(["paths", s])
+        elif r < 0.77:
+            ops.append([rng.choice(["down", "up"]), s, [rng.randrange(n) for _ in range(rng.randint(1, 4))]])
+        elif r < 0.84:
+            gi = rng.randrange(ng)
+            ops.append(["river", gi, rng.randrange(ncell[gi]), rng.choice([1, 2, 3, ncell[gi], ncell[gi] + 5])])
+        elif r < 0.89:
+            sgrid[s] = rng.randrange(ng)
+            ops.append(["new", s, sgrid[s]])
+        elif r < 0.94:
+            a = rng.randrange(nslots)
+            sgrid[s] = sgrid[a]
+            ops.append(["clone", s, a])
+        else:
+            ops.append(["touch", s, rng.choice(["isin", "to_dict", "str", "roundtrip"])])
+    return {"grids": grids, "ops": ops}
+
+
 def run(ctx):
     ctx.rule = ("exhaustive: every grid with <= 3 cells over 10 cell values x every outlet x every inlet subset; "
                 "sampled 2x2/1x4/4x1; random acyclic forests and arbitrary (cyclic) grids up to 8x8 (thorough 20x20), "
-                "1- and 2-column/row shapes emphasised, buffer sizes from 1 to ample; non-trivial = distinct "
-                "(kind, shape class, outcome class) signature")
+                "1- and 2-column/row shapes emphasised, buffer sizes from 1 to ample (and the default one); on every "
+                "grid several Catchment objects are alive at once (one reused for all calls, fresh ones per outlet) and "
+                "every object is read again after the later delineations; sessions: objects on 1-3 grids (often the "
+                "same shape, shared buffer sizes) through interleaved delineate_area / compute_flowpathlengths / "
+                "upstream / downstream / delineate_river / clone / readers, every live object and every result "
+                "handed out re-checked after each step; non-trivial = distinct (kind, shape class, outcome class) "
+                "signature")
     ctx.trusted = cm.STD_TRUST
     ctx.tested_not_proved = ["hole filling (scipy.ndimage.binary_fill_holes): containment tested only",
-                             "binary64 path lengths equal the real-number value to 1e-9 (tested)"]
+                             "binary64 path lengths equal the real-number value to 1e-9 (tested)",
+                             "independence of the results from the other objects / earlier and later calls of the "
+                             "process (sessions): tested only - the Coq model is a function of one call's arguments"]
     proved = cm.prove_with_kernels(ctx, ["c_upstream", "c_downstream", "c_neighbours", "c_delineate_river",
                                          "c_delineate_flowpathlengths_in_catchment", "c_delineate_area"])
     cm.use_impl()
@@ -111,6 +227,7 @@ def run(ctx):
     rng = ctx.rng
     terms, replays = [], []
     orc_fail = set()
+    stats = {"objects_read_again": 0, "results_read_again": 0, "sessions": 0, "session_steps": 0}
 
     def add(term, replay, sig):
         terms.append(term)
@@ -124,14 +241,212 @@ def run(ctx):
         orc_fail.add(idx)
         ctx.failure(key, replays[idx], what)
 
+    def report(key, replay, what, term=None, sig=None):
+        """Oracle failure of an observation that has no case term yet (term given: it is added, so that the
+        correspondence mismatch it may cause is tied to this report)."""
+        if term is not None:
+            fail(add(term, replay, sig), key, what)
+        else:
+            orc_fail.add(-1)
+            ctx.failure(key, replay, what)
+
     def shape_cls(nrows, ncols):
         return (min(nrows, 3), min(ncols, 3))
+
+    def grid_info(nrows, ncols, fd):
+        return {"nrows": nrows, "ncols": ncols, "fd": fd, "n": nrows * ncols,
+                "head": f"{cm.coq_z(nrows)} {cm.coq_z(ncols)} {cm.coq_zlist(fd)}",
+                "base": {"nrows": nrows, "ncols": ncols, "flowdir": fd},
+                "cls": shape_cls(nrows, ncols)}
+
+    def read_area(cat):
+        try:
+            return [int(x) for x in cat.idxcells_area], [int(x) for x in cat.idxcells_area_filled]
+        except ValueError:
+            return None, None
+
+    def area_term(G, rec, area):
+        return (f"CArea {G['head']} {cm.coq_z(rec['outlet'])} {cm.coq_zlist(rec['inl'])} {cm.coq_z(rec['nval'])} "
+                f"{cm.coq_option(area, cm.coq_zlist)}")
+
+    def area_call(cat, G, outlet, inlets, nval, extra=None, emit=True, mark=True):
+        """One delineate_area call on `cat`, judged at once.  nval None = the default buffer size (no case
+        term: the model's fuel is the buffer size).  Returns the record of what the object has to hold from
+        now on (rec['exp'] is None when nothing is required: error, or outlet on a cycle)."""
+        fd, nrows, ncols, n = G["fd"], G["nrows"], G["ncols"], G["n"]
+        extra = extra or {}
+        if mark:
+            cm.mark(dict(G["base"], call="delineate_area", outlet=outlet, inlets=inlets, nval=nval, **extra))
+        try:
+            if nval is None:
+                cat.delineate_area(outlet, list(inlets) if inlets is not None else None)
+            else:
+                cat.delineate_area(outlet, list(inlets) if inlets is not None else None, nval=nval)
+            area, filled = read_area(cat)
+        except ValueError:
+            area = filled = None
+        inl = list(inlets) if inlets is not None else []
+        want, cyc = o_area(fd, nrows, ncols, outlet, inl)
+        rec = {"G": G, "outlet": outlet, "inl": inl, "inlets_arg": None if inlets is None else inl, "nval": nval,
+               "want": want, "cyc": cyc, "area": area, "exp": None, "idx": None}
+        replay = dict(G["base"], call="delineate_area", outlet=outlet, inlets=inl, nval=nval, impl=area, **extra)
+        sig = ("area", G["cls"], area is None, len(inl) > 0, cyc, min(len(area or []), 3), nval is None,
+               bool(extra))
+        problems = []
+        if area is None:
+            # an error is legitimate only when the buffer is too small or the outlet lies on a cycle
+            need = (len(want) + 1) if want else 0
+            big = nval is None or nval > need + 1
+            if not cyc and big and 0 <= outlet < n and all(0 <= x < n for x in inl):
+                problems.append(("C06/area/spurious-error",
+                                 f"delineate_area(outlet={outlet}, inlets={inl}, nval={nval}) raised; "
+                                 f"expected {sorted(want)}"))
+        elif not cyc:   # grids with a cycle through the outlet: only termination is required
+            exp = (want | {outlet}) if want else set()
+            rec["exp"] = exp
+            if set(area) != exp or len(area) != len(set(area)):
+                problems.append(("C06/area/not-upstream-reachability",
+                                 f"delineate_area(outlet={outlet}, inlets={inl}) = {area}, expected {sorted(exp)}"))
+            if not set(filled) >= set(area):
+                problems.append(("C06/area/filled-not-superset", f"filled area {filled} does not contain {area}"))
+        if nval is not None and (emit or problems):
+            rec["idx"] = add(area_term(G, rec, area), replay, sig)
+            for key, what in problems:
+                fail(rec["idx"], key, what)
+        else:
+            ctx.count(sig)
+            for key, what in problems:
+                report(key, replay, what)
+        if problems:
+            rec["exp"] = None      # reported once; later reads of this object are not judged again
+        return rec
+
+    def audit_area(cat, rec, extra, emit):
+        """The object is read again after other operations of the process: it still has to hold exactly the
+        upstream set of ITS outlet / inlets (rec), each cell once, inside its filled area."""
+        if rec is None or rec["exp"] is None:
+            return True
+        G, exp = rec["G"], rec["exp"]
+        area, filled = read_area(cat)
+        stats["objects_read_again"] += 1
+        replay = dict(G["base"], call="delineate_area", outlet=rec["outlet"], inlets=rec["inl"], nval=rec["nval"],
+                      impl_at_call=rec["area"], impl=area, impl_filled=filled, **extra)
+        sig = ("area-read-again", G["cls"], len(rec["inl"]) > 0, min(len(exp), 3), rec["nval"] is None,
+               extra.get("how"))
+        what = (f"delineate_area(outlet={rec['outlet']}, inlets={rec['inl']}) gave {rec['area']}; the same object "
+                f"read again after later operations ({extra.get('how')}) holds ")
+        problems = []
+        if area is None:
+            problems.append(("C06/area/read-again/not-upstream-reachability", what + "no area any more"))
+        else:
+            if set(area) != exp or len(area) != len(set(area)):
+                problems.append(("C06/area/read-again/not-upstream-reachability",
+                                 what + f"{area}, expected {sorted(exp)}"))
+            if not set(filled) >= set(area):
+                problems.append(("C06/area/read-again/filled-not-superset",
+                                 what + f"{area}, not contained in its filled area {filled}"))
+        term = area_term(G, rec, area) if rec["nval"] is not None else None
+        if term is not None and (emit or problems):
+            i = add(term, replay, sig)
+            for key, w in problems:
+                fail(i, key, w)
+        else:
+            ctx.count(sig)
+            for key, w in problems:
+                report(key, replay, w)
+        if problems:
+            rec["exp"] = None
+        return not problems
+
+    def paths_call(cat, rec, extra=None):
+        """compute_flowpathlengths on an object whose area (rec) was found right.  Returns the record of
+        what cat.flowpathlengths has to hold."""
+        G, outlet = rec["G"], rec["outlet"]
+        area = read_area(cat)[0]       # the same cells as rec["area"] (checked by the caller), as held now
+        extra = extra or {}
+        if extra:
+            cm.mark(dict(G["base"], call="compute_flowpathlengths", outlet=outlet, area=area, **extra))
+        cat.compute_flowpathlengths()
+        rows = [(int(a), int(b), float(c)) for a, b, c in cat.flowpathlengths.values]
+        i = add(f"CPaths {G['head']} {cm.coq_z(outlet)} {cm.coq_zlist(area)} [" +
+                "; ".join(f"({cm.coq_z(a)}, {cm.coq_z(b)}, {cm.coq_float(c)})" for a, b, c in rows) + "]",
+                dict(G["base"], call="compute_flowpathlengths", outlet=outlet, area=area, impl=rows, **extra),
+                ("paths", G["cls"], len(area) > 2, bool(extra)))
+        prec = {"rec": rec, "area": area, "rows": rows, "ok": True}
+        bad = paths_problem(rec, area, rows)
+        if bad is not None:
+            prec["ok"] = False
+            fail(i, "C06/flowpath/length" + ("-outlet" if bad[0] == outlet else ""), bad[1])
+        return prec
+
+    def paths_problem(rec, area, rows):
+        """rows of flowpathlengths against the downstream chains: one row per area cell, in the order of
+        the area, with the length of its downstream chain to the outlet."""
+        G, outlet = rec["G"], rec["outlet"]
+        if len(rows) != len(area):
+            return (None, f"{len(rows)} flow path rows for an area of {len(area)} cells (outlet {outlet})")
+        for (a, b, length), x in zip(rows, area):
+            wantlen = o_pathlen(G["fd"], G["nrows"], G["ncols"], x, outlet)
+            if a != x or wantlen is None or abs(length - wantlen) > 1e-9 * max(1, wantlen):
+                return (x, f"flow path length of cell {x} to outlet {outlet} = {length} (start cell reported: {a}), "
+                           f"expected {wantlen} ({G['nrows']}x{G['ncols']})")
+        return None
+
+    def audit_paths(cat, prec, extra):
+        """cat.flowpathlengths read again later (the object was not re-delineated meanwhile)."""
+        if prec is None or not prec["ok"]:
+            return
+        rec = prec["rec"]
+        G = rec["G"]
+        stats["results_read_again"] += 1
+        fp = cat.flowpathlengths
+        rows = None if fp is None else [(int(a), int(b), float(c)) for a, b, c in fp.values]
+        ctx.count(("paths-read-again", G["cls"], len(rec["area"]) > 2))
+        bad = (None, "no flow path lengths any more") if rows is None else paths_problem(rec, prec["area"], rows)
+        if bad is not None:
+            prec["ok"] = False
+            term = None
+            if rows is not None:
+                term = (f"CPaths {G['head']} {cm.coq_z(rec['outlet'])} {cm.coq_zlist(prec['area'])} [" +
+                        "; ".join(f"({cm.coq_z(a)}, {cm.coq_z(b)}, {cm.coq_float(c)})" for a, b, c in rows) + "]")
+            report("C06/flowpath/read-again",
+                   dict(G["base"], call="compute_flowpathlengths", outlet=rec["outlet"], area=prec["area"],
+                        impl_at_call=prec["rows"], impl=rows, **extra),
+                   f"flow path lengths of the catchment of outlet {rec['outlet']} read again after later "
+                   f"operations ({extra.get('how')}): " + bad[1], term, ("paths-read-again-bad",))
+
+    def river_call(nrows, ncols, fd, geo, start, nval, extra=None):
+        xll, yll, csz = geo
+        extra = extra or {}
+        g2 = hygrid.Grid("fd", ncols, nrows, cellsize=csz, xllcorner=xll, yllcorner=yll, dtype=np.int64)
+        g2.data = np.array(fd, dtype=np.int64).reshape(nrows, ncols)
+        cm.mark(dict(call="delineate_river", nrows=nrows, ncols=ncols, flowdir=fd, start=start, nval=nval, **extra))
+        df = hygrid.delineate_river(g2, start, nval=nval)
+        rows = river_rows(df)
+        i = add(river_term(nrows, ncols, fd, geo, start, nval, rows),
+                dict({"call": "delineate_river", "nrows": nrows, "ncols": ncols, "flowdir": fd, "start": start,
+                      "nval": nval, "xll": xll, "yll": yll, "cellsize": csz, "impl": rows[:6]}, **extra),
+                ("river", shape_cls(nrows, ncols), min(len(rows), 3), bool(extra)))
+        ok = o_river_ok(fd, nrows, ncols, start, nval, rows)
+        if not ok:
+            fail(i, "C06/river/not-downstream-chain", f"river from {start}: {rows[:5]}")
+        return df, rows, ok
+
+    def river_rows(df):
+        return [(int(r.idxcell), float(r.dist), float(r.dx), float(r.dy), float(r.x), float(r.y))
+                for r in df.itertuples()]
+
+    def river_term(nrows, ncols, fd, geo, start, nval, rows):
+        t = "[" + "; ".join("(" + ", ".join([cm.coq_z(r[0])] + [cm.coq_float(v) for v in r[1:]]) + ")"
+                            for r in rows) + "]"
+        return (f"CRiver {cm.coq_z(nrows)} {cm.coq_z(ncols)} {cm.coq_float(geo[0])} {cm.coq_float(geo[1])} "
+                f"{cm.coq_float(geo[2])} {cm.coq_zlist(fd)} {cm.coq_z(start)} {cm.coq_z(nval)} (Some {t})")
 
     def do_grid(nrows, ncols, fd, outlets, inlet_sets, nvals, full=True):
         n = nrows * ncols
         cat, g = make_catchment(nrows, ncols, fd)
-        head = f"{cm.coq_z(nrows)} {cm.coq_z(ncols)} {cm.coq_zlist(fd)}"
-        base = {"nrows": nrows, "ncols": ncols, "flowdir": fd}
+        G = grid_info(nrows, ncols, fd)
+        head, base = G["head"], G["base"]
         if full:
             ids = list(range(n))
             downs = [int(x) for x in cat.downstream(np.array(ids))]
@@ -146,10 +461,8 @@ def run(ctx):
                 i = add(f"CUp {head} {cm.coq_z(c)} (Some {cm.coq_zlist(ups[c])})",
                         dict(base, call="upstream", cell=c, impl=ups[c]),
                         ("up", shape_cls(nrows, ncols), sum(1 for v in ups[c] if v >= 0)))
-                wantup = sorted(x for x in range(n) if o_down(fd, nrows, ncols, x) == c)
-                gotup = [v for v in ups[c] if v >= 0]
-                if sorted(gotup) != wantup or len(set(gotup)) != len(gotup) or \
-                        ups[c][len(gotup):] != [-1] * (9 - len(gotup)):
+                okup, wantup = o_up_ok(ups[c], fd, nrows, ncols, c)
+                if not okup:
                     fail(i, "C06/upstream/not-inverse-of-downstream",
                          f"upstream({c}) = {ups[c]}, cells draining to it: {wantup}")
             for bad in (-1, n):
@@ -164,60 +477,167 @@ def run(ctx):
                             dict(base, call=nm, cell=bad, raised=ok), (nm + "-invalid",))
                     if not ok:
                         fail(i, "C06/invalid-cell-accepted", f"{nm}({bad}) did not raise")
+        # One object (cat) is taken through all the calls; beside it one FRESH object per outlet is delineated
+        # with one of the (inlets, nval) combinations and kept.  Once every call on this grid has been made,
+        # every object still has to hold the upstream set of its own outlet.
+        combos = [(inlets, nval) for inlets in inlet_sets for nval in nvals]
+        calls, kept = [], []
+        rec = None
         for outlet in outlets:
-            for inlets in inlet_sets:
-                for nval in nvals:
-                    cm.mark(dict(base, call="delineate_area", outlet=outlet, inlets=inlets, nval=nval))
+            pick = rng.randrange(len(combos))
+            for k, (inlets, nval) in enumerate(combos):
+                rec = area_call(cat, G, outlet, inlets, nval)
+                calls.append(["reused", outlet, rec["inlets_arg"], nval])
+                if rec["exp"] is not None and rec["area"] and nval >= 2:
+                    paths_call(cat, rec)
+                if k == pick:
+                    # same arguments as the call just made (and just recorded by cm.mark)
+                    cat2 = hygrid.Catchment(f"fresh{outlet}", g)
+                    rec2 = area_call(cat2, G, outlet, inlets, nval, emit=False, mark=False,
+                                     extra={"object": f"fresh Catchment object for outlet {outlet}"})
+                    calls.append([f"fresh{outlet}", outlet, rec2["inlets_arg"], nval])
+                    kept.append((cat2, rec2, len(calls)))
+        later = rng.randrange(len(kept)) if kept else -1
+        for j, (cat2, rec2, pos) in enumerate(kept):
+            extra = {"how": "other Catchment objects delineated on the same grid meanwhile",
+                     "object": calls[pos - 1][0],
+                     "later_calls_object_outlet_inlets_nval": calls[pos:]}
+            if audit_area(cat2, rec2, extra, emit=True) and j == later and rec2["area"]:
+                # flow path lengths asked for late start from the cells of the area
+                paths_call(cat2, rec2, extra)
+        if rec is not None:
+            audit_area(cat, rec, {"how": "read twice, other objects read in between", "object": "reused",
+                                  "later_calls_object_outlet_inlets_nval": []}, emit=False)
+
+    def do_session(sess):
+        """See gen_session.  Every operation is judged when it is made, as a single call would be; then
+        after every step each live object is read again through its accessors (idxcells_area,
+        idxcells_area_filled, flowpathlengths) and each result handed out by upstream / downstream /
+        delineate_river (kept alive, as a caller collecting results would) is looked at again: all of them
+        still have to be what the property states for the call that produced them."""
+        Gs = [grid_info(*g) for g in sess["grids"]]
+        glive = []
+        for G in Gs:
+            g = hygrid.Grid("fd", G["ncols"], G["nrows"], dtype=np.int64)
+            g.data = np.array(G["fd"], dtype=np.int64).reshape(G["nrows"], G["ncols"])
+            glive.append(g)
+        objs = {}     # slot -> {"cat", "gi", "rec", "prec", "step"}
+        held = []     # results handed out: (kind, step, gi, cells / (start, nval), live object)
+        ops = sess["ops"]
+        stats["sessions"] += 1
+
+        def sofar(step, **kw):
+            return dict({"session": {"grids": sess["grids"], "ops": ops[:step + 1]}, "read_after_step": step}, **kw)
+
+        def audit(step, final):
+            for slot, o in objs.items():
+                if o["rec"] is None or o["step"] == step:
+                    continue
+                extra = sofar(step, how="session", object=f"slot {slot}", delineated_at_step=o["step"])
+                if audit_area(o["cat"], o["rec"], extra, emit=final):
+                    audit_paths(o["cat"], o["prec"], extra)
+                else:
+                    o["prec"] = None
+            for h in held:
+                if h["at"] != step and h["ok"]:
+                    judge_held(h, step)
+
+        def judge_held(h, step):
+            """h: a result of downstream / upstream / delineate_river, judged when it is returned
+            (step == h['at']) and each time it is looked at again afterwards."""
+            kind, at, arg, live = h["kind"], h["at"], h["arg"], h["live"]
+            G = Gs[h["gi"]]
+            fd, nrows, ncols = G["fd"], G["nrows"], G["ncols"]
+            again = step != at
+            if again:
+                stats["results_read_again"] += 1
+            tail = f" when read again after later calls (returned at step {at}, read after step {step})" if again else ""
+            sfx = "read-again" if again else None
+            if kind == "down":
+                got = [int(x) for x in live]
+                want = [o_down(fd, nrows, ncols, c) for c in arg]
+                h["ok"] = got == want
+                if not h["ok"]:
+                    k = next((j for j in range(min(len(arg), len(got))) if got[j] != want[j]), 0)
+                    report("C06/downstream/" + (sfx or "wrong"),
+                           sofar(step, **dict(G["base"], call="downstream", cells=arg, returned_at_step=at, impl=got)),
+                           f"downstream({arg}) = {got}{tail}, expected {want}",
+                           f"CDown {G['head']} {cm.coq_z(arg[k])} (Some {cm.coq_z(got[k] if got else 0)})",
+                           ("down-session-bad", again))
+            elif kind == "up":
+                got = [[int(v) for v in row] for row in live]
+                res = [o_up_ok(row, fd, nrows, ncols, c) for c, row in zip(arg, got)]
+                h["ok"] = len(got) == len(arg) and all(r[0] for r in res)
+                if not h["ok"]:
+                    k = next((j for j, r in enumerate(res) if not r[0]), 0)
+                    report("C06/upstream/" + (sfx or "not-inverse-of-downstream"),
+                           sofar(step, **dict(G["base"], call="upstream", cells=arg, returned_at_step=at, impl=got)),
+                           f"upstream({arg}) = {got}{tail}; cells draining to {arg[k]}: {res[k][1]}",
+                           f"CUp {G['head']} {cm.coq_z(arg[k])} (Some {cm.coq_zlist(got[k])})",
+                           ("up-session-bad", again))
+            else:
+                start, nval = arg
+                rows = river_rows(live)
+                h["ok"] = o_river_ok(fd, nrows, ncols, start, nval, rows)
+                if not h["ok"]:
+                    report("C06/river/read-again",
+                           sofar(step, **dict(G["base"], call="delineate_river", start=start, nval=nval,
+                                              returned_at_step=at, impl=rows[:6])),
+                           f"river from {start}: {rows[:5]}{tail}",
+                           river_term(nrows, ncols, fd, (0., 0., 1.), start, nval, rows),
+                           ("river-session-bad", again))
+            ctx.count((kind + ("-read-again" if again else "-session"), G["cls"], h["ok"]))
+
+        for step, op in enumerate(ops):
+            name = op[0]
+            stats["session_steps"] += 1
+            if name == "new":
+                objs[op[1]] = {"cat": hygrid.Catchment(f"s{op[1]}", glive[op[2]]), "gi": op[2], "rec": None,
+                               "prec": None, "step": step}
+            elif name == "river":
+                G = Gs[op[1]]
+                df, rows, ok = river_call(G["nrows"], G["ncols"], G["fd"], (0., 0., 1.), op[2], op[3],
+                                          extra=sofar(step))
+                held.append({"kind": "river", "at": step, "gi": op[1], "arg": (op[2], op[3]), "live": df, "ok": ok})
+            else:
+                o = objs[op[1]]
+                cat, G = o["cat"], Gs[o["gi"]]
+                if name == "area":
+                    o["rec"] = area_call(cat, G, op[2], op[3], op[4], extra=sofar(step, object=f"slot {op[1]}"))
+                    # the flow path lengths the object may still hold belong to the superseded area: not judged
+                    o["prec"], o["step"] = None, step
+                elif name == "paths":
+                    if o["rec"] is not None and o["rec"]["exp"] is not None and o["rec"]["area"]:
+                        # the area the lengths start from: the object's own, as delineated
+                        if audit_area(cat, o["rec"], sofar(step, how="session", object=f"slot {op[1]}",
+                                                           delineated_at_step=o["step"]), emit=False):
+                            o["prec"] = paths_call(cat, o["rec"], extra=sofar(step, object=f"slot {op[1]}"))
+                elif name in ("down", "up"):
+                    cells = op[2]
+                    cm.mark(sofar(step))
+                    live = (cat.downstream if name == "down" else cat.upstream)(np.array(cells))
+                    held.append({"kind": name, "at": step, "gi": o["gi"], "arg": cells, "live": live, "ok": True})
+                    judge_held(held[-1], step)
+                elif name == "clone":
+                    src = objs[op[2]]
+                    # a deep copy: what it holds is not what this property is about until it is delineated
+                    # again; it must not tie the two objects together
+                    objs[op[1]] = {"cat": src["cat"].clone(), "gi": src["gi"], "rec": None, "prec": None,
+                                   "step": step}
+                else:
+                    # readers outside the property: whatever they return or raise is not judged here
                     try:
-                        cat.delineate_area(outlet, list(inlets) if inlets is not None else None, nval=nval)
-                        area = [int(x) for x in cat.idxcells_area]
-                        filled = [int(x) for x in cat.idxcells_area_filled]
-                    except ValueError:
-                        area = filled = None
-                    inl = list(inlets) if inlets is not None else []
-                    want, cyc = o_area(fd, nrows, ncols, outlet, inl)
-                    i = add(f"CArea {head} {cm.coq_z(outlet)} {cm.coq_zlist(inl)} {cm.coq_z(nval)} "
-                            f"{cm.coq_option(area, cm.coq_zlist)}",
-                            dict(base, call="delineate_area", outlet=outlet, inlets=inl, nval=nval, impl=area),
-                            ("area", shape_cls(nrows, ncols), area is None, len(inl) > 0, cyc,
-                             min(len(area or []), 3)))
-                    if area is None:
-                        # an error is legitimate only when the buffer is too small or the outlet lies on a cycle
-                        need = (len(want) + 1) if want else 0
-                        if not cyc and nval > need + 1 and 0 <= outlet < n and all(0 <= x < n for x in inl):
-                            fail(i, "C06/area/spurious-error",
-                                 f"delineate_area(outlet={outlet}, inlets={inl}, nval={nval}) raised; "
-                                 f"expected {sorted(want)}")
-                        continue
-                    if cyc:
-                        continue  # grids with a cycle through the outlet: only termination is required
-                    exp = (want | {outlet}) if want else set()
-                    if set(area) != exp or len(area) != len(set(area)):
-                        fail(i, "C06/area/not-upstream-reachability",
-                             f"delineate_area(outlet={outlet}, inlets={inl}) = {area}, expected {sorted(exp)}")
-                    if not set(filled) >= set(area):
-                        fail(i, "C06/area/filled-not-superset", f"filled area {filled} does not contain {area}")
-                    if area and nval >= 2:
-                        cat.compute_flowpathlengths()
-                        fp = cat.flowpathlengths.values
-                        rows = [(int(a), int(b), float(c)) for a, b, c in fp]
-                        i = add(f"CPaths {head} {cm.coq_z(outlet)} {cm.coq_zlist(area)} [" +
-                                "; ".join(f"({cm.coq_z(a)}, {cm.coq_z(b)}, {cm.coq_float(c)})" for a, b, c in rows) + "]",
-                                dict(base, call="compute_flowpathlengths", outlet=outlet, area=area, impl=rows),
-                                ("paths", shape_cls(nrows, ncols), len(area) > 2))
-                        for (a, b, length), x in zip(rows, area):
-                            wantlen, c, steps = 0.0, x, 0
-                            while c != outlet and steps <= n:
-                                d = o_down(fd, nrows, ncols, c)
-                                dr, dc = divmod(d, ncols)[0] - divmod(c, ncols)[0], d % ncols - c % ncols
-                                wantlen += math.sqrt(2) if dr != 0 and dc != 0 else 1.0
-                                c = d
-                                steps += 1
-                            if a != x or abs(length - wantlen) > 1e-9 * max(1, wantlen):
-                                fail(i, "C06/flowpath/length" + ("-outlet" if x == outlet else ""),
-                                     f"flow path length of cell {x} to outlet {outlet} = {length}, expected {wantlen} "
-                                     f"({nrows}x{ncols})")
-                                break
+                        if op[2] == "isin":
+                            cat.isin(0), cat.isin(G["n"] - 1, filled=True)
+                        elif op[2] == "to_dict":
+                            cat.to_dict()
+                        elif op[2] == "str":
+                            str(cat)
+                        else:
+                            hygrid.Catchment.from_dict(cat.to_dict())
+                    except Exception:
+                        pass
+            audit(step, final=(step == len(ops) - 1))
 
     # ---- exhaustive tiny grids
     shapes = [(1, 1), (1, 2), (2, 1), (1, 3), (3, 1)]
@@ -237,14 +657,9 @@ def run(ctx):
         nrows = rng.choice([1, 2, 2, 3, rng.randint(1, S)])
         ncols = rng.choice([1, 2, 2, 3, rng.randint(1, S)])
         n = nrows * ncols
-        if rng.random() < 0.7:
-            fd = rand_acyclic(rng, nrows, ncols)
-        else:
-            fd = [rng.choice(VALUES if rng.random() < 0.3 else CODES) for _ in range(n)]
+        fd = rand_grid(rng, nrows, ncols)
         # outlets: prefer cells with many upstream cells
-        outlets = rng.sample(range(n), min(n, 3))
-        acc = sorted(range(n), key=lambda c: -len(o_area(fd, nrows, ncols, c, [])[0]))
-        outlets = list(dict.fromkeys(acc[:2] + outlets))[:4]
+        outlets = good_outlets(rng, fd, nrows, ncols)
         inlet_sets = [None, tuple(rng.sample(range(n), min(n, rng.randint(1, 3))))]
         nvals = [n + 2, rng.choice([1, 2, 3, max(2, n // 2), n, n + 1])]
         do_grid(nrows, ncols, fd, outlets, inlet_sets, nvals, full=(it % 3 == 0))
@@ -252,39 +667,16 @@ def run(ctx):
         for _ in range(2):
             start = rng.randrange(n)
             nval = rng.choice([1, 2, 3, n, n + 5])
-            xll, yll, csz = rng.choice([(0., 0., 1.), (10.5, -3.25, 0.25), (rng.uniform(-50, 50), rng.uniform(-50, 50), 10 ** rng.uniform(-2, 2))])
-            _, g = make_catchment(nrows, ncols, fd)
-            g2 = hygrid.Grid("fd", ncols, nrows, cellsize=csz, xllcorner=xll, yllcorner=yll, dtype=np.int64)
-            g2.data = np.array(fd, dtype=np.int64).reshape(nrows, ncols)
-            df = hygrid.delineate_river(g2, start, nval=nval)
-            rows = [(int(r.idxcell), float(r.dist), float(r.dx), float(r.dy), float(r.x), float(r.y))
-                    for r in df.itertuples()]
-            t = "[" + "; ".join("(" + ", ".join([cm.coq_z(r[0])] + [cm.coq_float(v) for v in r[1:]]) + ")"
-                                for r in rows) + "]"
-            i = add(f"CRiver {cm.coq_z(nrows)} {cm.coq_z(ncols)} {cm.coq_float(xll)} {cm.coq_float(yll)} "
-                    f"{cm.coq_float(csz)} {cm.coq_zlist(fd)} {cm.coq_z(start)} {cm.coq_z(nval)} (Some {t})",
-                    {"call": "delineate_river", "nrows": nrows, "ncols": ncols, "flowdir": fd, "start": start,
-                     "nval": nval, "impl": rows[:6]}, ("river", shape_cls(nrows, ncols), min(len(rows), 3)))
-            # oracle: cells follow the downstream chain, distances advance by 1 / sqrt(2)
-            c, dist = start, 0.0
-            okr = True
-            for j, r in enumerate(rows):
-                if r[0] != c or abs(r[1] - dist) > 1e-9 * max(1, dist):
-                    okr = False
-                    break
-                d = o_down(fd, nrows, ncols, c)
-                if d < 0:
-                    okr = okr and j == len(rows) - 1
-                    break
-                dr, dc = d // ncols - c // ncols, d % ncols - c % ncols
-                dist += math.sqrt(2) if dr != 0 and dc != 0 else 1.0
-                c = d
-            if not okr or len(rows) > nval or len(rows) < 1:
-                fail(i, "C06/river/not-downstream-chain", f"river from {start}: {rows[:5]}")
+            geo = rng.choice([(0., 0., 1.), (10.5, -3.25, 0.25), (rng.uniform(-50, 50), rng.uniform(-50, 50), 10 ** rng.uniform(-2, 2))])
+            river_call(nrows, ncols, fd, geo, start, nval)
+    # ---- sessions: several objects / grids alive at once, everything read again after every step
+    for it in range(ctx.scale(150, 1500)):
+        do_session(gen_session(rng, S))
 
     bad, nshards, failed = cm.run_case_files(PID, HEADER, "ccase", "c_ok", terms, shard=3000, max_bytes=400000)
     ctx.notes["correspondence_cases"] = len(terms)
     ctx.notes["correspondence_mismatches"] = len(bad)
+    ctx.notes["read_again"] = stats
     for k in range(nshards):
         ctx.obligation(f"Cases_{PID}_{k}.agree (model = implementation on the shard)", True)
     cm.settle(ctx, proved, bad, failed, orc_fail, lambda i: replays[i],
